@@ -682,7 +682,8 @@ def run_case(arg):
                         if tag != "GDEF":
                             sample_glyphs(tag, t, gid, bnd, names, cap=4)
             names = {g for g in names if isinstance(g, str)}
-        gmap = {g: gid(g) + 1 for g in names if g in set(order)}
+        inorder = set(order)
+        gmap = {g: gid(g) + 1 for g in names if g in inorder}
         uni = set(gmap.values())
         advs = {g: pristine["hmtx"].metrics[g][0] for g in gmap if "hmtx" in pristine and g in pristine["hmtx"].metrics}
         M, uns = project_layout(tabs0, gmap, adv=advs)
